@@ -422,6 +422,59 @@ fn grid(tier: Tier, classes: &mut BTreeMap<String, u64>, found: &mut Vec<Found>)
     cells
 }
 
+/// A healthy account (collateral $1000 at maintenance weight 0.9, debt $400) and a third party that presents, at the
+/// start, something unreadable in the place of the collateral bank's oracle - the debt bank's oracle, or the right
+/// oracle gone stale - and the right accounts afterwards. Nothing of this may commit: the account is not unhealthy.
+fn unreadable_oracle_at_start(classes: &mut BTreeMap<String, u64>, found: &mut Vec<Found>) -> u64 {
+    let mut cells = 0u64;
+    for variant in ["other_banks_oracle", "stale_collateral_oracle"] {
+        let mut sc = scene(&format!("u{}", &variant[..1]), 0.05, [1000.0, 1000.0], [400.0, 400.0]);
+        let (ok0, ok1) = (sc.w.banks[0].oracle.unwrap(), sc.w.banks[1].oracle.unwrap());
+        if variant == "stale_collateral_oracle" {
+            // an hour passes; only the debt bank's oracle is cranked
+            let keep = sc.s.get(&ok0).cloned().unwrap();
+            sc.s.advance(3_600);
+            world::refresh_oracles(&mut sc.s, &sc.w);
+            sc.s.set(ok0, keep);
+        }
+        let w = &sc.w;
+        let acct = w.users[0].account;
+        let liq = w.users[sc.liq].authority;
+        let ta = |b: usize| w.users[sc.liq].tokens[&w.banks[b].mint];
+        let good = w.risk_metas(&sc.s, &acct, None, None);
+        let mut bad = good.clone();
+        if variant == "other_banks_oracle" {
+            for m in bad.iter_mut() {
+                if m.pubkey == ok0 {
+                    m.pubkey = ok1;
+                }
+            }
+        }
+        let end_rem_after_withdraw_all = w.risk_metas(&sc.s, &acct, None, Some(w.banks[0].key));
+        let txs: Vec<(&str, Vec<Ix>)> = vec![
+            ("start_end", vec![ix::start_liquidation(acct, liq, bad.clone()), ix::end_liquidation(acct, liq, w.fee_wallet, bad.clone())]),
+            ("start_withdraw_all_end", vec![ix::start_liquidation(acct, liq, bad.clone()), ix::withdraw(w.group, acct, liq, w.banks[0].key, ta(0), w.banks[0].token_program, 0, Some(true), end_rem_after_withdraw_all.clone()), ix::end_liquidation(acct, liq, w.fee_wallet, end_rem_after_withdraw_all.clone())]),
+            ("start_withdraw_some_end", vec![ix::start_liquidation(acct, liq, bad.clone()), ix::withdraw(w.group, acct, liq, w.banks[0].key, ta(0), w.banks[0].token_program, 50_000_000, None, good.clone()), ix::end_liquidation(acct, liq, w.fee_wallet, bad.clone())]),
+            ("start_withdraw_repay_end", vec![ix::start_liquidation(acct, liq, bad.clone()), ix::withdraw(w.group, acct, liq, w.banks[0].key, ta(0), w.banks[0].token_program, 50_000_000, None, good.clone()), ix::repay(w.group, acct, liq, w.banks[1].key, ta(1), w.banks[1].token_program, 1_900_000_000, None, vec![]), ix::end_liquidation(acct, liq, w.fee_wallet, good.clone())]),
+        ];
+        for (name, ixs) in txs {
+            let mut post = sc.s.clone();
+            let r = process_tx(&mut post, &Tx::new(ixs, &[liq]));
+            cells += 1;
+            *classes.entry(format!("unreadable_oracle:{variant}:{name}:{}", if r.ok() { "committed" } else { "refused" })).or_insert(0) += 1;
+            if r.ok() {
+                found.push(Found {
+                    clause: "C10.only_unhealthy_accounts".into(),
+                    sig: format!("unreadable_oracle:{variant}:{name}"),
+                    detail: format!("a third party's bracket ({name}) committed on a healthy account (collateral $1000, debt $400) after presenting {} at the start", if variant == "other_banks_oracle" { "the debt bank's oracle in the place of the collateral bank's" } else { "a collateral oracle that has not been updated for an hour" }),
+                    replay: json!({"model": "C10u", "variant": variant, "tx": name}),
+                });
+            }
+        }
+    }
+    cells
+}
+
 /// collateral that carries no weight or no price can never be taken out in a receivership
 fn worthless_collateral(classes: &mut BTreeMap<String, u64>, found: &mut Vec<Found>) -> u64 {
     let mut cells = 0;
@@ -523,7 +576,7 @@ pub fn run(tier: Tier) -> Outcome {
         }
         shape_cells += lists.len() as u64;
     }
-    let grid_cells = grid(tier, &mut classes, &mut found) + worthless_collateral(&mut classes, &mut found);
+    let grid_cells = grid(tier, &mut classes, &mut found) + worthless_collateral(&mut classes, &mut found) + unreadable_oracle_at_start(&mut classes, &mut found);
     let mut o = Outcome { level: "model_checking".into(), ..Default::default() };
     let mut uniq: BTreeMap<(String, String), Found> = BTreeMap::new();
     for f in found {
